@@ -322,4 +322,6 @@ func init() {
 func Register() {
 	rig.Register(&rig.Spec{Prop: "C31", Level: "exploration", Stages: []rig.Stage{{Name: "pick-revert-rebase", Fn: c31}}})
 	rig.Register(&rig.Spec{Prop: "C32", Level: "exploration", Stages: []rig.Stage{{Name: "diff-patch", Fn: c32}}})
+	rig.Register(&rig.Spec{Prop: "C33", Level: "exploration", Stages: []rig.Stage{{Name: "historical-reads", Fn: c33}}})
+	rig.Register(&rig.Spec{Prop: "C34", Level: "exploration", Stages: []rig.Stage{{Name: "stash-reset-checkout", Fn: c34}}})
 }
